@@ -303,6 +303,11 @@ func CheckC19(o *Outcome) *vh.Finding {
 		if procPass+procDrop != inPass {
 			return vh.Fail("metrics:process-balance", "stop %d: input passed %v but pipelines passed %v + dropped %v", so.Gen, inPass, procPass, procDrop)
 		}
+		// the same equation in bytes: both sides add up the input length of the same records
+		procPassB, procDropB := m.Sum("slogagent_process_passed_record_bytes_total"), m.Sum("slogagent_process_dropped_record_bytes_total")
+		if procPassB+procDropB != inPassB {
+			return vh.Fail("metrics:process-balance-bytes", "stop %d: input passed %v bytes (%v records) but pipelines passed %v + dropped %v bytes (%v + %v records)", so.Gen, inPassB, inPass, procPassB, procDropB, procPass, procDrop)
+		}
 		for i := 0; i < nOut; i++ {
 			lbl := fmt.Sprintf("output=out%d", i)
 			input := m.Sum("slogagent_process_buffer_input_chunks_total", lbl)
